@@ -21,6 +21,43 @@ class Expected(Exception):
 # polymorphic environments
 
 
+def fold_defs(term, defs):
+    """Rewrite `term` replacing every maximal arithmetic subterm that is polynomially equal to a definition's right-hand
+    side (or its negation) by the defined name.  Sound under the path condition, which contains name == polynomial."""
+    if not defs:
+        return term
+    zero = z3.RealVal(0)
+    cache = {}
+
+    def canon(t):
+        return z3.simplify(t, som=True)
+
+    dcan = [(n, canon(p_)) for n, p_ in defs]
+
+    def rec(t):
+        k = t.get_id()
+        if k in cache and cache[k][0].eq(t):
+            return cache[k][1]
+        out = t
+        if z3.is_app(t) and t.num_args() > 0:
+            if z3.is_arith(t) and t.decl().kind() in (z3.Z3_OP_ADD, z3.Z3_OP_MUL, z3.Z3_OP_SUB, z3.Z3_OP_UMINUS):
+                ct = canon(t)
+                for n, cp in dcan:
+                    if ct.eq(cp) or z3.simplify(ct - cp, som=True).eq(zero):
+                        out = n
+                        break
+                    if z3.simplify(ct + cp, som=True).eq(zero):
+                        out = -n
+                        break
+                else:
+                    out = t.decl()(*[rec(a) for a in t.children()])
+            else:
+                out = t.decl()(*[rec(a) for a in t.children()])
+        cache[k] = (t, out)
+        return out
+    return rec(term)
+
+
 class SymEnv:
     mode = "sym"
 
@@ -136,6 +173,25 @@ class SymEnv:
     def ite(self, c, a, b):
         return SNum(z3.If(zbool(c), zreal(a), zreal(b)))
     def fun(self, name, *args): return core.sx_fun(name, *args)
+    def acos_addition_law(self, d1, d2, d3):
+        """Contract of arccos used by the triangle-inequality obligations (an axiom about the library function, listed in
+        the harness' assumptions): for u, v, w in [0,1]
+            acos(w) <= acos(u) + acos(v)   <=>   w >= u*v - sqrt((1-u^2)(1-v^2))
+        (acos(u)+acos(v) lies in [0,pi], where cos is decreasing, and cos(acos u + acos v) = uv - sqrt(1-u^2)sqrt(1-v^2)).
+        d1, d2, d3 are values k*acos(.) of the same k and unit.  The arguments are first rewritten over the NAMES of the
+        quaternion inner products (the definitional equalities name == polynomial are part of the path condition)."""
+        from . import npx
+        if not all(isinstance(d, npx.SAcos) for d in (d1, d2, d3)):
+            raise Unsupported("acos_addition_law on non-acos values")
+        if len({(d.k, d.deg) for d in (d1, d2, d3)}) != 1:
+            raise Unsupported("acos_addition_law: different scalings")
+        defs = self.ctx.__dict__.get("_qdot_defs", [])
+        u, v, w = [fold_defs(d.arg, defs) for d in (d1, d2, d3)]
+        s = z3.Real("acos_s!%d" % next(self.ctx.fresh))
+        self.ctx.assume(z3.And(s >= 0, s * s == (1 - u * u) * (1 - v * v)))
+        self.ctx.assume((zreal(d3) <= zreal(d1) + zreal(d2)) == (w >= u * v - s))
+        return u, v, w
+
     def note(self, k, v): self.info[k] = v
     def path(self, name): return "/sxfs/" + name
 
@@ -277,6 +333,9 @@ class ConcEnv:
         return f(*[float(a) for a in args])
     def note(self, k, v): self.info[k] = v
 
+    def acos_addition_law(self, d1, d2, d3):
+        return None
+
     def path(self, name):
         import tempfile
         if getattr(self, "_tmp", None) is None:
@@ -351,6 +410,7 @@ def run_concrete(harness, params, model, tol=TOL):
         os.chdir(cwd)
         env.cleanup()
     res["obligations"] = len(env.obligations)
+    res["ob_names_hash"] = hashlib.sha256("|".join(sorted(n for n, _ in env.obligations)).encode()).hexdigest()[:16]
     res["failed"] = [n for n, ok in env.obligations if not ok]
     res["info"] = env.info
     return res
@@ -509,6 +569,21 @@ def run_path(harness, params, prefix, opts):
                 if r_s == "unsat":
                     r, m = "unsat", None
                     rel, rest = sub, []
+            if r is None and sub is not None and len(pc) > 12:
+                # second rung: widen the symbol set by the SMALL facts (<= 8 symbols) that touch the obligation's symbols
+                # (contracts and lemma instances over named sub-terms), then take every assumption inside the widened set
+                gs2 = set(gs)
+                for a in pc:
+                    sa = solve._syms(a)
+                    if sa and len(sa) <= 8 and (sa & gs):
+                        gs2 |= sa
+                if gs2 != set(gs):
+                    sub2 = [a for a in pc if solve._syms(a) and solve._syms(a) <= gs2]
+                    if len(sub2) > len(sub) and len(sub2) < len(pc):
+                        r_s, _, info = solve.check(sub2 + [z3.Not(cond)], timeout=min(otimeout, 15.0))
+                        if r_s == "unsat":
+                            r, m = "unsat", None
+                            rel, rest = sub2, []
             if r is None and ctx.__dict__.get("heavy"):
                 rel_l, _ = solve.slice_for(ctx.pc_light(), [cond])
                 r_l, _, info = solve.check(rel_l + [z3.Not(cond)], timeout=otimeout)
@@ -577,6 +652,7 @@ def run_path(harness, params, prefix, opts):
             out["pc_model"] = _model_to_json(m)
             out["pc_model_interior"] = interior
             out["crosscheck"] = run_concrete(harness, params, m)
+            out["sym_ob_names_hash"] = hashlib.sha256("|".join(sorted(n for n, _ in env.obligations)).encode()).hexdigest()[:16]
     inconclusive_ob = out["status"] == "ok" and any(o["result"] == "unknown" for o in out["obligations"])
     if (out["status"] in ("unsupported", "exception") or inconclusive_ob) and want_cc and opts.get("fallback_models", 6) > 0 \
             and not (out.get("crosscheck") or {}).get("failed") and (out.get("crosscheck") or {}).get("status") != "exception":
